@@ -36,7 +36,7 @@ CLASSES = [
 
 def budget(tier):
     if tier == 'thorough':
-        return dict(examples=1000, shards=16, procs=16)
+        return dict(examples=2000, shards=16, procs=16)
     return dict(examples=400, shards=4, procs=4)
 
 
